@@ -255,6 +255,15 @@ class Py:
             self.others.insert(0, e)
             self.ens, self.its, self.kept = new, [], []
             return "ok"
+        if op == "reload":
+            c, q, w = self.arrays()
+            back = self.through_codec(e, "ens")
+            if not (np.shape(back.coords) == c.shape and np.shape(back.atomic_charges) == q.shape and np.shape(back.weights) == w.shape
+                    and eq_arr(np, np.array(back.coords, dtype=float), c) and eq_arr(np, np.array(back.atomic_charges, dtype=float), q)
+                    and eq_arr(np, np.array(back.weights, dtype=float), w) and back.n_atoms == e.n_atoms):
+                raise ValueError("the library gives back another ensemble")
+            self.ens, self.its, self.kept = back, [], []
+            return "ok"
         if op == "swap":
             k = t.nat()
             if k >= len(self.others):
@@ -282,8 +291,8 @@ class Py:
             j, c = t.nat(), t.conf()
             cf = self.kept[j][0]
             a = np.array(c, dtype=float).reshape((len(c), 3))
-            if a.shape != np.shape(cf.coords):
-                raise ValueError("shape")
+            if len(c) == 1 and np.shape(cf.coords)[0] != 1:
+                raise ValueError("outside the model: one row for several atoms")
             cf.coords = a
             return "ok"
         if op == "append":
@@ -305,7 +314,10 @@ class Py:
             e.extend(e)
             return "ok"
         if op == "extendGeoms":
-            e.extend([self.geom_obj(c, q) for c, q in t.many(t.geom)])
+            gs = [self.geom_obj(c, q) for c, q in t.many(t.geom)]
+            # `extend` takes any iterable: a list, or (every other time) a single-pass generator
+            self.ngen = getattr(self, "ngen", 0) + 1
+            e.extend(gs if self.ngen % 2 else (g for g in gs))
             return "ok"
         if op == "scale":
             f, a = t.num(), t.nat()
@@ -314,60 +326,52 @@ class Py:
         if op == "invert":
             e.invert()
             return "ok"
+        # mis-shaped arguments go to the real code as they are (numpy decides); the only thing kept away from it is a single
+        # row given for several atoms (broadcast over the atom axis), which the model does not describe
         if op == "translate":
-            v = np.array(t.vec(), dtype=float)
-            if v.shape != (3,):
-                raise ValueError("shape")
-            e.translate(v)
+            e.translate(t.vec())
             return "ok"
         if op == "translateEach":
             vs = t.many(t.vec)
-            if len(vs) != np.shape(e.coords)[0] or any(len(v) != 3 for v in vs):
-                raise ValueError("shape")
-            e.translate(self.arr(vs, (3,)))
+            e.translate(vs if vs else np.zeros((0, 3)))
             return "ok"
         if op == "rotate":
-            m = t.mat()
-            if len(m) != 3 or any(len(r) != 3 for r in m):
-                raise ValueError("shape")
-            e.rotate(np.array(m, dtype=float))
+            e.rotate(t.mat())
             return "ok"
         if op == "rotateEach":
             ms = t.many(t.mat)
-            if len(ms) != np.shape(e.coords)[0] or any(len(m) != 3 or any(len(r) != 3 for r in m) for m in ms):
-                raise ValueError("shape")
-            e.rotate(self.arr(ms, (3, 3)))
+            e.rotate(ms if ms else np.zeros((0, 3, 3)))
             return "ok"
         if op == "setCoords":
             cs = t.many(t.conf)
-            if any(len(c) != e.n_atoms for c in cs):
-                raise ValueError("shape")
-            a = self.arr(cs, (e.n_atoms, 3))
-            if a.shape != np.shape(e.coords):   # the model speaks about exact shapes only (no broadcasting)
-                raise ValueError("shape")
-            e.coords = a
+            rows = {len(c) for c in cs}
+            if 1 in rows and e.n_atoms != 1:
+                raise ValueError("outside the model: one row for several atoms")
+            if len(rows) <= 1:
+                r = rows.pop() if rows else e.n_atoms
+                cs = np.array(cs, dtype=float).reshape((len(cs), r, 3))
+            e.coords = cs
             return "ok"
         if op == "setWeights":
-            a = np.array(t.vec(), dtype=float)
-            if a.shape != np.shape(e.weights):
-                raise ValueError("shape")
-            e.weights = a
+            ws = t.vec()
+            e.weights = ws if ws else np.zeros((0,))
             return "ok"
         if op == "setCharges":
             qs = t.many(t.vec)
-            if any(len(q) != e.n_atoms for q in qs):
-                raise ValueError("shape")
-            a = self.arr(qs, (e.n_atoms,))
-            if a.shape != np.shape(e.atomic_charges):
-                raise ValueError("shape")
-            e.atomic_charges = a
+            ks = {len(q) for q in qs}
+            if 1 in ks and e.n_atoms != 1:
+                raise ValueError("outside the model: one value for several atoms")
+            if len(ks) <= 1:
+                k = ks.pop() if ks else e.n_atoms
+                qs = np.array(qs, dtype=float).reshape((len(qs), k))
+            e.atomic_charges = qs
             return "ok"
         if op == "writeCoords":
             i, c = t.nat(), t.conf()
             a = np.array(c, dtype=float).reshape((len(c), 3))
             cf = self.handle_for(i)
-            if a.shape != np.shape(cf.coords):
-                raise ValueError("shape")
+            if len(c) == 1 and np.shape(cf.coords)[0] != 1:
+                raise ValueError("outside the model: one row for several atoms")
             cf.coords = a
             return "ok"
         if op == "writeCharges":
@@ -461,6 +465,23 @@ MATS = [
     [[1, 0, 0], [0, 1, 0], [0, 0, 1]], [[0, 1, 0], [-1, 0, 0], [0, 0, 1]], [[1, 0, 0], [0, 0, -1], [0, 1, 0]],
     [[0, 0, 1], [1, 0, 0], [0, 1, 0]], [[0.5, 0, 0], [0, 1, 0.5], [0, -0.5, 1]], [[-1, 0, 0], [0, -1, 0], [0, 0, -1]],
 ]
+
+
+BAD_MATS = [
+    [[1, 0], [0, 1], [0, 0]],                 # 3 x 2
+    [[1, 0, 0], [0, 1, 0]],                   # 2 x 3
+    [[1], [0], [0]],                          # 3 x 1: numpy repeats the single column - accepted
+    [[1, 0, 0], [0, 1], [0, 0, 1]],           # ragged
+    [[1, 0, 0, 0], [0, 1, 0, 0], [0, 0, 1, 0]],
+]
+
+
+def count_arg(rng, nC: int, nA: int, bad: bool) -> int:
+    """how many per-conformer items an argument carries: n_conformers, or 1 (numpy repeats it), or a count numpy must refuse
+    (one more, 2 for a single conformer, n_atoms when that differs, none)"""
+    if not bad:
+        return nC if rng.chance(5, 6) else 1
+    return rng.choice([nC + 1, 2 if nC == 1 else nC + 2, nA if nA not in (nC, 1) else nC + 1, 0, 1])
 
 
 def mat(m) -> str:
@@ -580,15 +601,52 @@ def gen_kept(rng) -> list:
     return ops + ["loopKeep", "readKept 0", "loop"]
 
 
+def gen_after_reload(rng) -> list:
+    """an ensemble goes through the library and EVERY kind of mutating operation is then applied to what came back"""
+    nA, nC = rng.choice([1, 2, 3]), rng.range(1, 3)
+    ops = [distinct_mols(rng, nA, nC) if rng.chance(2, 3) else f"ctorAtoms {nA} {nC}"]
+    if rng.chance(1, 2):
+        ops.append("append " + rgeom(rng, nA))
+        nC += 1
+    ops.append("reload")
+    muts = [
+        lambda: f"writeCoords {rng.below(nC)} " + conf(rconf(rng, nA)),
+        lambda: f"writeCharges {rng.below(nC)} " + vec([rnum(rng) for _ in range(nA)]),
+        lambda: f"writeAtom {rng.below(nC)} {rng.below(nA)} " + vec([rnum(rng) for _ in range(3)]),
+        lambda: f"writeCharge {rng.below(nC)} {rng.below(nA)} {num(rnum(rng))}",
+        lambda: "translate " + vec([rnum(rng) for _ in range(3)]),
+        lambda: f"translateEach {nC} " + " ".join(vec([rnum(rng) for _ in range(3)]) for _ in range(nC)),
+        lambda: "scale 2 0",
+        lambda: "invert",
+        lambda: "rotate " + mat(rng.choice(MATS)),
+        lambda: f"rotateEach {nC} " + " ".join(mat(rng.choice(MATS[:4])) for _ in range(nC)),
+        lambda: f"setCoords {nC} " + " ".join(conf(rconf(rng, nA)) for _ in range(nC)),
+        lambda: "setWeights " + vec([rnum(rng) for _ in range(nC)]),
+        lambda: f"setCharges {nC} " + " ".join(vec([rnum(rng) for _ in range(nA)]) for _ in range(nC)),
+        lambda: "loopKeep",
+        lambda: f"writeKept 0 " + conf(rconf(rng, nA)),
+    ]
+    order = list(range(len(muts)))
+    rng.shuffle(order)
+    for k in order[:rng.range(6, len(muts))]:
+        ops.append(muts[k]())
+        if rng.chance(1, 6):
+            ops.append(f"read {rng.below(nC)}")
+    ops += ["append " + rgeom(rng, nA), "extendSelf", "reload", "translate V3 1 0 0", "writeCharges 0 " + vec([rnum(rng) for _ in range(nA)])]
+    return ops + ["serialise", "loop"]
+
+
 def gen_sequence(rng, quick: bool) -> list:
     """a history: starts with a construction; mostly valid operations, some that must fail"""
-    r0 = rng.below(12)
+    r0 = rng.below(14)
     if r0 < 3:
         return gen_iter_storm(rng)
     if r0 < 5:
         return gen_copies(rng)
     if r0 < 7:
         return gen_kept(rng)
+    if r0 < 9:
+        return gen_after_reload(rng)
     ops = []
     nA = rng.choice([0, 1, 2, 3, 3, 4, 6])
     nC = rng.choice([0, 1, 2, 3, 5])
@@ -632,24 +690,28 @@ def gen_sequence(rng, quick: bool) -> list:
             budget -= 1
             ops.append(rng.choice(["scale 2 0", "scale 1/2 0", "scale -1 1", "scale -2 0", "scale 0 0", "scale 4 1", "invert"]))
         elif r < 39:
-            ops.append("translate " + vec([rnum(rng) for _ in range(2 if bad else 3)]))
-        elif r < 42 and nC != 1:
-            m = nC + (1 if bad else 0)
-            ops.append(f"translateEach {m} " + " ".join(vec([rnum(rng) for _ in range(3)]) for _ in range(m)))
+            # one vector: 3 components, 1 (numpy repeats it), or 0 / 2 / 4 (numpy refuses)
+            ops.append("translate " + vec([rnum(rng) for _ in range(rng.choice([3, 3, 3, 1, 2, 4, 0]) if bad or rng.chance(1, 6) else 3)]))
+        elif r < 42:
+            m = count_arg(rng, nC, nA, bad)
+            k = rng.choice([3, 3, 1, 2]) if bad else 3
+            ops.append(f"translateEach {m} " + " ".join(vec([rnum(rng) for _ in range(k if not (bad and rng.chance(1, 5)) else 3 - (i % 2))]) for i in range(m)))
         elif r < 47 and budget:
             budget -= 1
-            ops.append("rotate " + mat(rng.choice(MATS) if not bad else [[1, 0], [0, 1], [0, 0]]))
-        elif r < 49 and budget and nC != 1:
+            ops.append("rotate " + mat(rng.choice(MATS) if not bad else rng.choice(BAD_MATS)))
+        elif r < 49 and budget:
             budget -= 1
-            m = nC + (1 if bad else 0)
-            ops.append(f"rotateEach {m} " + " ".join(mat(rng.choice(MATS)) for _ in range(m)))
+            m = count_arg(rng, nC, nA, bad)
+            shapes = rng.choice([MATS, MATS, [[[1], [0], [0]]]]) if not (bad and rng.chance(1, 3)) else MATS + BAD_MATS
+            ops.append(f"rotateEach {m} " + " ".join(mat(rng.choice(shapes)) for _ in range(m)))
         elif r < 52:
-            m = nC + (1 if bad else 0)
-            ops.append(f"setCoords {m} " + " ".join(conf(rconf(rng, nA)) for _ in range(m)))
+            m = count_arg(rng, nC, nA, bad)
+            ops.append(f"setCoords {m} " + " ".join(conf(rconf(rng, nA + (2 if bad and rng.chance(1, 3) else 0))) for _ in range(m)))
         elif r < 55:
-            ops.append("setWeights " + vec([rnum(rng) for _ in range(nC + (1 if bad else 0))]))
+            ops.append("setWeights " + vec([rnum(rng) for _ in range(count_arg(rng, nC, nA, bad))]))
         elif r < 58:
-            ops.append(f"setCharges {nC} " + " ".join(vec([rnum(rng) for _ in range(nA + (1 if bad else 0))]) for _ in range(nC)))
+            m = count_arg(rng, nC, nA, bad and rng.chance(1, 2))
+            ops.append(f"setCharges {m} " + " ".join(vec([rnum(rng) for _ in range(nA + (2 if bad and rng.chance(1, 2) else 0))]) for _ in range(m)))
         elif r < 64:
             ops.append(f"writeCoords {rng.below(nC + 1)} " + conf(rconf(rng, nA + (1 if bad else 0))))
         elif r < 70:
@@ -665,8 +727,11 @@ def gen_sequence(rng, quick: bool) -> list:
             ops.append(f"slice {f()} {f()} {rng.choice(['-', '-', '1', '2', '-1', '-2', '0', '3'])}")
         elif r < 88:
             ops.append(f"dump {rng.below(nC + 1)}")
-        elif r < 90:
+        elif r < 89:
             ops.append("serialise")
+        elif r < 90:
+            ops.append("reload")
+            nit = 0
         elif r < 93:
             ops.append("iterNew")
             nit += 1
@@ -690,13 +755,15 @@ def exhaustive(quick: bool) -> list:
     g = "C2 1 0 0 0 1/2 0 Q2 1/4 -1/4"
     alpha = ["append " + g, "append C2 0 0 0 0 0 1 Q-", "extendSelf", "extendGeoms 1 " + g, "iterNew", "iterNext 0", "iterNext 1",
              "writeCharges 0 V2 1 2", "writeCoords 1 C2 1 1 1 2 2 2", "scale 2 0", "loop", "nestedLoop", "dump 2", "read 1", "slice - - -1",
-             "translate V3 1 0 0", "ctorCopy", "serialise", "swap 0", "loopKeep", "iterNextKeep 0", "readKept 0", "writeKept 1 C2 3 3 3 4 4 4"]
+             "translate V3 1 0 0", "ctorCopy", "serialise", "swap 0", "loopKeep", "iterNextKeep 0", "readKept 0", "writeKept 1 C2 3 3 3 4 4 4",
+             "reload", "translateEach 3 V3 1 0 0 V3 0 1 0 V3 0 0 1", "translateEach 1 V3 0 0 1"]
     out = []
     for seq in itertools.product(alpha, repeat=2 if quick else 3):
         out.append(["ctorAtoms 2 2"] + list(seq) + ["loop", "dump 0"])
     for start, nA in (("ctorAtoms 2 0", 2), ("ctorAtoms 0 0", 0), ("ctorAtoms 0 2", 0)):
         ga = conf([[1, 0, 0]] * nA) + " Q-"
-        short = ["serialise", "append " + ga, "dump 0", "loop", "extendSelf", "ctorCopy", "nestedLoop", "read 0", "loopKeep", "swap 0"]
+        short = ["serialise", "append " + ga, "dump 0", "loop", "extendSelf", "ctorCopy", "nestedLoop", "read 0", "loopKeep", "swap 0",
+                 "reload", "translateEach 2 V3 1 0 0 V3 0 1 0", "translate V3 1 0 0"]
         for seq in itertools.product(short, repeat=2 if quick else 3):
             out.append([start] + list(seq) + ["serialise", "loop"])
     return out
@@ -718,6 +785,14 @@ def oracle_step(ctx, py: Py, line: str, out: str, before, history: list):
     c, q, w = py.arrays()
     nc = c.shape[0] if c.ndim else -1
     rect = c.shape == (nc, e.n_atoms, 3) and q.shape == (nc, e.n_atoms) and w.shape == (nc,)
+    for nm, a in (("coords", e.coords), ("atomic_charges", e.atomic_charges), ("weights", e.weights)):
+        fl = getattr(a, "flags", None)
+        if fl is None or not fl.writeable or a.dtype != np.dtype("float64") or not (fl.owndata or a.base is None):
+            ctx.violation("C14:array-is-not-an-own-writable-float64-array",
+                          f"after `{op}`: ens.{nm} has dtype {getattr(a, 'dtype', type(a).__name__)}, writeable={getattr(fl, 'writeable', '?')}, "
+                          f"owns its data={getattr(fl, 'owndata', '?')} - a constructed ensemble has own, writable float64 arrays, and "
+                          f"every in-place operation relies on it", replay)
+            return False
     if not rect:
         among = c.ndim == 3 and q.shape == c.shape[:2] and w.shape == c.shape[:1] and c.shape[2] == 3
         kind = ("C14:arrays-disagree-with-atom-list" if among else
@@ -856,7 +931,7 @@ def run_history(ctx, ops: list, use_lib: bool):
             raise
         except Exception:  # noqa: BLE001
             out = "err"
-        if line.startswith("ctor") or line.startswith("swap"):
+        if line.startswith("ctor") or line.startswith("swap") or line.startswith("reload"):
             py.held = None
         ok = oracle_step(ctx, py, line, out, before, list(hist))
         if ok:
